@@ -165,6 +165,8 @@ func (f *FSM) Open() {
 		f.irc()
 		f.scr()
 		f.state = ReqSent
+	case Closing:
+		f.state = Stopping
 	}
 }
 
@@ -341,6 +343,7 @@ func (f *FSM) rcaEvent(id uint8, data []byte) {
 		f.state = ReqSent
 	case AckSent:
 		f.stopTimer()
+		f.irc()
 		f.tlu()
 		f.state = Opened
 	case Opened:
@@ -374,7 +377,6 @@ func (f *FSM) rcnEvent(id uint8, data []byte, isRej bool) {
 	case AckSent:
 		f.irc()
 		f.scr()
-		f.state = ReqSent
 	case Opened:
 		f.tld()
 		f.scr()
@@ -388,9 +390,11 @@ func (f *FSM) rtrEvent(id uint8) {
 		f.sta(id)
 	case ReqSent, AckRcvd, AckSent:
 		f.sta(id)
+		f.state = ReqSent
 	case Opened:
 		f.tld()
 		f.zrc()
+		f.startTimer()
 		f.sta(id)
 		f.state = Stopping
 	}
@@ -406,7 +410,7 @@ func (f *FSM) rtaEvent() {
 		f.stopTimer()
 		f.tlf()
 		f.state = Stopped
-	case AckSent:
+	case AckRcvd:
 		f.state = ReqSent
 	case Opened:
 		f.tld()
@@ -417,6 +421,16 @@ func (f *FSM) rtaEvent() {
 
 func (f *FSM) rxjEvent(data []byte) {
 	switch f.state {
+	case Closed, Stopped:
+		f.tlf()
+	case Closing:
+		f.stopTimer()
+		f.tlf()
+		f.state = Closed
+	case Stopping:
+		f.stopTimer()
+		f.tlf()
+		f.state = Stopped
 	case ReqSent, AckRcvd, AckSent:
 		f.tlf()
 		f.state = Stopped
